@@ -33,7 +33,8 @@ def gen(tier, seed):
             dim = rnd.choice((1, 1, 2))
             cases.append({"U": fsl(U), "p": p, "kind": v["kind"], "mults": v["mults"], "scalar": dim == 1,
                           "P": pts_json(rand_points(rnd, n, dim)),
-                          "W": fsl(rand_weights(rnd, n)) if rational else None,
+                          "W": (fsl([F(rnd.choice((2, 3, 1)), rnd.choice((1, 3)))] * n) if rnd.random() < 0.3
+                                else fsl(rand_weights(rnd, n))) if rational else None,
                           # a representation that is NOT minimal (degree raised by the implementation first): the
                           # derivative must not tidy up its operand
                           "elevate": (rnd.choice((1, 2)) if (not rational and p <= 2 and n <= 5 and rnd.random() < 0.5) else 0)})
@@ -49,6 +50,15 @@ def impl(case):
         curve.weights = nums(case["W"])
     if case.get("elevate"):
         curve.degree_increase(case["elevate"])
+    # the same kind of curve on an interval of another length is differentiated first in the same process: results must
+    # not depend on what was computed before (anything memoised per degree must not carry the interval along)
+    def _other():
+        U2 = [3 * (u - nums(case["U"])[0]) + 1 for u in nums(case["U"])]
+        c2 = Curve(U2, points(case["P"], case["scalar"]))
+        if case["W"] is not None:
+            c2.weights = nums(case["W"])
+        Derivate(c2)
+    capture(_other)
     before = curve_state(curve)
     r = capture(lambda: curve_state(Derivate(curve)))
     return {"c": before, "r": r, "after": curve_state(curve)}
